@@ -20,15 +20,18 @@ PROPS_FILE = "Props/C03.v"
 IMPORTS = ["Model.StateWf", "Spec.StateWf"]
 MANIFEST = dict(
     text="Partial. Coq theorems (closed under the global context) about a hand-written model of how a workflow "
-         "node's State is assembled from its upstream states (other_states wiring, _complete_prev_state in both "
-         "passes, _add_state_history, [prev, current] product, keys/states_ind, combiner -> states_ind_final, "
-         "prepare_inputs/inputs_ind, _split_task, LazyOutField._get_value): see the theorem list in Props/C03.v. "
-         "C03_refuted: the full statement (model = nested-loop spec for every well-formed workflow) is false - the "
-         "diamond multiplies a shared origin. The positive theorems speak about a fragment (python-task nodes, one "
-         "output, own splitter = outer product of own fields, combiner = any axes of the node); inner splitters, "
-         "explicit _Node references, re-splitting of lazy outputs and nested workflows are not modelled. The model is "
-         "tied to the code by running generated workflows with injective tagging tasks through the debug worker and "
-         "evaluating model and spec on the same workflow descriptions inside Coq (vm_compute).",
+         "node's State is assembled from its upstream states and how its jobs index into upstream results "
+         "(other_states wiring, _complete_prev_state in both passes, _add_state_history, [prev, current] product, "
+         "keys/states_ind, combiner -> states_ind_final, prepare_inputs/inputs_ind, _split_task, "
+         "LazyOutField._get_value). C03_partial: for every workflow of the modelled fragment (any number of nodes, any "
+         "list lengths) in the computable class c03_aligned (inputs of every node carry separate origins or are exactly "
+         "a state and its relay; two combiner side conditions) the model's outputs equal the nested-loop (origin "
+         "coordinate) evaluation; corollaries C03_chain, C03_fanin_independent (graph classes), C03_shared_direct. "
+         "C03_refuted: the full statement is false - the diamond multiplies a shared origin (F03). The fragment is "
+         "python-task nodes, one output, own splitter = outer product of own fields, combiner = any axes of the node; "
+         "inner splitters, explicit _Node references, re-splitting of lazy outputs and nested workflows are not "
+         "modelled. The model is tied to the code by running generated workflows with injective tagging tasks through "
+         "the debug worker and evaluating model and spec on the same workflow descriptions inside Coq (vm_compute).",
     note="Trusted: Coq kernel + vm_compute; the hand-written model (leaf sequences instead of RPN for all-outer "
          "splitters; State.splits / remove_inp_from_splitter_rpn / rpn2splitter on such splitters modelled by their "
          "result); the tagging task and canonicaliser; correspondence is differential testing.",
@@ -389,16 +392,17 @@ Definition spec_ok (c : case_t) : bool := obs_eqb (snd c) (Some (spec_run (fst c
    may behave like the model or like the spec *)
 Definition tie_ok (c : case_t) : bool :=
   let '(w, o) := c in
-  if c03_domain w then obs_eqb o (model_run w)
+  if c03_aligned w then obs_eqb o (model_run w)
   else if tie_region w then obs_eqb o (model_run w) || spec_ok c else true.
-Definition out_domain (c : case_t) : bool := negb (c03_domain (fst c)).
+Definition out_domain (c : case_t) : bool := negb (c03_aligned (fst c)).
+Definition not_separate (c : case_t) : bool := negb (c03_domain (fst c)).
 Definition not_wf (c : case_t) : bool := wf_ok (fst c).
 Definition cls_share (c : case_t) : bool := share_class (fst c).
 Definition cls_comb_all_prev (c : case_t) : bool := comb_all_prev_class (fst c).
 Definition cls_empty_comb (c : case_t) : bool := empty_comb_class (fst c).
 Definition model_is_spec (c : case_t) : bool := obs_eqb (model_run (fst c)) (Some (spec_run (fst c))).
 """
-CHECKS = {"tie": "tie_ok", "spec": "spec_ok", "in_domain": "out_domain", "ill_formed": "not_wf",
+CHECKS = {"tie": "tie_ok", "spec": "spec_ok", "in_domain": "out_domain", "separate": "not_separate", "ill_formed": "not_wf",
           "share": "cls_share", "comb_all_prev": "cls_comb_all_prev", "empty_comb": "cls_empty_comb",
           "model_ne_spec": "model_is_spec"}
 
@@ -455,6 +459,7 @@ def run(ctx):
 
     dist = {"nodes_%d" % k: 0 for k in range(2, 6)}
     dist.update(fan_in=0, with_combiner=0, with_empty_list=0, impl_raised=0, in_proved_class=len(res["in_domain"]))
+    dist["in_separate_origins_class"] = len(res["separate"])
     dist["class_share_violated"] = len(res["share"])
     dist["class_comb_all_prev_violated"] = len(res["comb_all_prev"])
     dist["class_empty_comb_violated"] = len(res["empty_comb"])
@@ -504,7 +509,7 @@ def replay(ctx, payload):
     print("implementation:", show_obs(o))
     vals = coqio.eval_terms(ctx.scratch, "replay", IMPORTS,
                             ["model_run %s" % enc_wf(case), "spec_run %s" % enc_wf(case),
-                             "(c03_domain %s, share_class %s, comb_all_prev_class %s, empty_comb_class %s)" % ((enc_wf(case),) * 4)])
+                             "(c03_aligned %s, share_class %s, comb_all_prev_class %s, empty_comb_class %s)" % ((enc_wf(case),) * 4)])
     print("model         :", vals[0])
     print("spec          :", vals[1])
     print("(in proved class, sharing ok, comb-all-prev ok, empty-comb ok):", vals[2])
